@@ -2,7 +2,7 @@
    Only statements; every proof is `exact <lemma>`; examples by computation. *)
 From Coq Require Import List ZArith QArith Qcanon Bool Arith.
 From Dimod Require Import Base.Util Model.Poly Model.HPoly Model.Reduce
-  Proofs.ReduceFacts Proofs.PenaltyFacts Proofs.MakeQuadratic Proofs.NormaliseFacts Proofs.C15EndToEnd Proofs.ReduceLoop Proofs.BaseFacts Model.Gates Gen.Gen_Gates Gen.Gen_SpinProduct Proofs.GenPenalties.
+  Proofs.ReduceFacts Proofs.PenaltyFacts Proofs.MakeQuadratic Proofs.NormaliseFacts Proofs.C15EndToEnd Proofs.ReduceLoop Proofs.BaseFacts Model.Gates Gen.Gen_Gates Gen.Gen_SpinProduct Proofs.GenPenalties Proofs.PolymorphFacts.
 Import ListNotations.
 Open Scope Qc_scope.
 
@@ -260,6 +260,53 @@ Theorem C15_with_base_energy :
     end.
 Proof. exact with_base_energy. Qed.
 Print Assumptions C15_with_base_energy.
+
+(* ---------- make_quadratic_cqm ---------- *)
+(* the product constraints u*v - p == 0 are satisfied exactly by the consistent assignments ... *)
+Theorem C15_cqm_feasible_iff_consistent :
+  forall cons (a : sample), cqm_feasibleb cons a = true <-> consistent cons a.
+Proof. exact cqm_feasible_iff_consistent. Qed.
+Print Assumptions C15_cqm_feasible_iff_consistent.
+
+(* ... on which the CQM's objective is the polynomial's energy *)
+Theorem C15_make_quadratic_cqm_exact :
+  forall poly cons (a : sample),
+    terms_nodup poly = true -> valid_cons (hvars poly) cons = true ->
+    all_degree_le2 (reduce_with cons poly) = true ->
+    cqm_feasibleb cons a = true ->
+    energy (poly_of_hpoly (reduce_with cons poly)) a = henergy poly a.
+Proof. exact make_quadratic_cqm_exact. Qed.
+Print Assumptions C15_make_quadratic_cqm_exact.
+
+(* ---------- HigherOrderComposite: polymorph_response, code shaped (polymorph_rows) ---------- *)
+(* every returned row stems from a child row, carries the polynomial's energy of the FULL child row and
+   the flag "all products consistent"; with discard_unsatisfied only consistent rows are returned *)
+Theorem C15_polymorph_rows_spec :
+  forall poly cons discard vc vo rows out,
+    In out (polymorph_rows poly cons discard vc vo rows) ->
+    exists r, In r rows /\
+      fst (fst out) = map (row_sample vc r) vo /\
+      snd (fst out) = henergy poly (row_sample vc r) /\
+      (discard = false -> snd out = consistentb cons (row_sample vc r)) /\
+      (discard = true -> snd out = true /\ consistentb cons (row_sample vc r) = true).
+Proof. exact polymorph_rows_spec. Qed.
+Print Assumptions C15_polymorph_rows_spec.
+
+Theorem C15_polymorph_rows_length :
+  forall poly cons vc vo rows,
+    length (polymorph_rows poly cons false vc vo rows) = length rows /\
+    length (polymorph_rows poly cons true vc vo rows)
+    = length (filter (fun r => consistentb cons (row_sample vc r)) rows).
+Proof. exact polymorph_rows_length. Qed.
+Print Assumptions C15_polymorph_rows_length.
+
+(* the energy computed on the full row is the energy of the row restricted to the returned columns *)
+Theorem C15_restricted_row_energy :
+  forall poly vc r vo,
+    NoDup vo -> (forall x, In x (hvars poly) -> In x vo) -> length (map (row_sample vc r) vo) = length vo ->
+    henergy poly (row_sample vo (map (row_sample vc r) vo)) = henergy poly (row_sample vc r).
+Proof. exact restricted_row_energy. Qed.
+Print Assumptions C15_restricted_row_energy.
 
 (* the hypotheses are satisfiable on a non-trivial instance: x0 x1 x2 x3 - 2 x0 x1 x2 + x3 *)
 Example C15_ex_reduce :
